@@ -71,3 +71,27 @@ prop("C05", coq_deps=["Base.v", "Term.v", "Expr.v", "Datalog.v", "Corr.v", "Data
               "S-level model (strings by content); wall-clock timeout not modelled"],
      assumptions=["completeness and order-independence are stated for set-free facts and rule heads (Set.Equal is not an equivalence on "
                   "lists with repeated elements: C05_setfree_needed); soundness needs no hypothesis"])
+
+CHAIN_DEPS = ["Base.v", "Chain.v", "Corr.v", "ChainProofs.v", "Generated.v"]
+CHAIN_TRUSTED = ["ed25519 is not modelled: Section variables pub/sign/verify; laws used are stated in each theorem "
+                 "(verify_sign, pub_len; verify_sound relative to an ideal ledger Signed for the forgery statements; "
+                 "pub_inj, sign_inj for uniqueness). The correspondence instantiates them with oracle tables computed by "
+                 "crypto/ed25519 itself",
+                 "the envelope is decoded for the model by protobuf-go (harness), block bytes are opaque at this layer; "
+                 "the wire layer is Model/Wire.v"]
+prop("C01", coq_deps=CHAIN_DEPS,
+     theorems=["C01_accept_iff_chain", "C01_broken_link_rejected", "C01_verification_total", "C01_payload_injective",
+               "C01_seal_payload_injective", "C01_complete", "C01_accepted_is_signed", "C01_unsigned_link_rejected",
+               "C01_unsigned_seal_rejected", "C01_wrong_secret_rejected"],
+     trusted=CHAIN_TRUSTED, assumptions=["cryptographic strength of ed25519 is the hypothesis verify_sound (partial in that respect)"])
+prop("C09", coq_deps=CHAIN_DEPS,
+     theorems=["C09_seal_verifies", "C09_same_revocation_ids", "C09_same_root_id", "C09_frozen", "C09_tamper_rejected",
+               "C09_seal_payload_injective"],
+     trusted=CHAIN_TRUSTED, assumptions=["same Datalog content <=> same blocks: the authorizer reads only c_auth/c_blocks"])
+prop("C16", coq_deps=CHAIN_DEPS,
+     theorems=["C16_id_at_build", "C16_id_survives_append", "C16_id_survives_seal", "C16_id_travels", "C16_lookup_exact"],
+     trusted=CHAIN_TRUSTED, assumptions=[])
+prop("C17", coq_deps=CHAIN_DEPS,
+     theorems=["C17_one_per_block", "C17_is_signature", "C17_prefix_append", "C17_prefix_seal", "C17_unique_signing_events",
+               "C17_new_id_shape"],
+     trusted=CHAIN_TRUSTED, assumptions=["fresh randomness: distinct signing events draw distinct 32-byte seeds; pub and sign are collision-free"])
